@@ -31,9 +31,11 @@ def alias_variants(kind, d, rng, limit=6):
         if kind == "space":
             kind = d.get("type", "grid")
         for syn in ALIASES.get(kind, []):
-            if syn[0] in d:
-                for a in syn[1:]:
-                    sites.append((path, syn[0], a))
+            present = [k for k in syn if k in d]          # whichever synonym the dictionary uses (the writers need not use the first)
+            if len(present) == 1:
+                for a in syn:
+                    if a != present[0]:
+                        sites.append((path, present[0], a))
         for key, ck in CHILDREN.get(kind, {}).items():
             if key in d and isinstance(d[key], (dict, list)):
                 if ck.endswith("*"):
@@ -353,10 +355,11 @@ def observe_species(c):
     rng = random.Random(c["alias_seed"])
     variants = [["as_written", copy.deepcopy(written)]]
     for syn in ALIASES.get("species", []):
-        if syn[0] in written and len(syn) > 1 and rng.random() < 0.5:
+        present = [k for k in syn if k in written]
+        if len(present) == 1 and len(syn) > 1 and rng.random() < 0.5:
             v = copy.deepcopy(written)
-            v[rng.choice(syn[1:])] = v.pop(syn[0])
-            variants.append(["alias:" + syn[0], v])
+            v[rng.choice([a for a in syn if a != present[0]])] = v.pop(present[0])
+            variants.append(["alias:" + present[0], v])
     for key in ("D", "density", "chstt", "units"):
         if rng.random() < 0.4:
             v = copy.deepcopy(written)
@@ -505,10 +508,11 @@ def observe_reaction(c):
     rng = random.Random(c["alias_seed"])
     variants = [["as_written", copy.deepcopy(written)]]
     for syn in ALIASES.get("reaction", []):
-        if syn[0] in written and len(syn) > 1 and rng.random() < 0.5:
+        present = [k for k in syn if k in written]
+        if len(present) == 1 and len(syn) > 1 and rng.random() < 0.5:
             v = copy.deepcopy(written)
-            v[rng.choice(syn[1:])] = v.pop(syn[0])
-            variants.append(["alias:" + syn[0], v])
+            v[rng.choice([a for a in syn if a != present[0]])] = v.pop(present[0])
+            variants.append(["alias:" + present[0], v])
     for key in ("k+", "k-", "label", "units"):
         if rng.random() < 0.4:
             v = copy.deepcopy(written)
@@ -615,10 +619,11 @@ def observe_network(c):
     rng = random.Random(c["alias_seed"])
     variants = [["as_written", copy.deepcopy(written)]]
     for syn in ALIASES.get("network", []):
-        if syn[0] in written and len(syn) > 1 and rng.random() < 0.6:
+        present = [k for k in syn if k in written]
+        if len(present) == 1 and len(syn) > 1 and rng.random() < 0.6:
             v = copy.deepcopy(written)
-            v[rng.choice(syn[1:])] = v.pop(syn[0])
-            variants.append(["alias:" + syn[0], v])
+            v[rng.choice([a for a in syn if a != present[0]])] = v.pop(present[0])
+            variants.append(["alias:" + present[0], v])
     for key in ("reactions", "units"):
         if rng.random() < 0.4 and (key != "reactions" or not written["reactions"]):
             v = copy.deepcopy(written)
